@@ -722,9 +722,9 @@ def ring_pairs_outside_units(ast, parents):
 
 
 def c05_recipes(max_tokens, max_depth=3, max_mults=2, counts=(2, 3), max_nondefault=2, min_tokens=1,
-                symbols=NONDEFAULT, with_ring=True, branch_in_unit=True):
+                symbols=NONDEFAULT, with_ring=True, branch_in_unit=True, min_mults=1):
     """
-    Every skeleton with <= max_tokens node tokens x every choice of 1..max_mults multiplier sites (any node, any
+    Every skeleton with min_tokens..max_tokens node tokens x every choice of min_mults..max_mults multiplier sites (any node, any
     branch that is the only branch of its anchor; an anchor with a multiplier of its own is excluded) x counts x
     every assignment of bond symbols to the positions (incoming symbol of every node but the first -- for the
     node after a multiplied unit that is the symbol after |n --, and the 'inter' symbol of every multiplied
@@ -737,7 +737,7 @@ def c05_recipes(max_tokens, max_depth=3, max_mults=2, counts=(2, 3), max_nondefa
             base = skeleton_to_ast(skel)
             sites = multiplier_sites(base)
             parents = skeleton_parents(skel)
-            for r in range(1, max_mults + 1):
+            for r in range(min_mults, max_mults + 1):
                 for chosen in itertools.combinations(sites, r):
                     probe = build({'skel': skel, 'mult': [[kind, i, 2, ''] for kind, i in chosen]})
                     if scope_violation(probe, max_depth) is not None:
